@@ -651,7 +651,7 @@ def search(ctx, deep):
                   samples=[{'declaration': 'Optional(int, size=8, unsigned=True, max=200)', 'values': [-1, 0, 200, 201, 255, 256], 'oracle': 'accepted iff 0 <= v <= 200'}])
 
 
-TYPE_ALLOWED = {'CBool': {'TgBool'}, 'CStr': {'TgStrNum', 'TgStrText'}, 'CInt': {'TgInt', 'TgBool', 'TgStrNum'},
+TYPE_ALLOWED = {'CBool': {'TgBool', 'TgInt'}, 'CStr': {'TgStrNum', 'TgStrText'}, 'CInt': {'TgInt', 'TgBool', 'TgStrNum'},
                 'CReal': {'TgFloat', 'TgInt', 'TgBool', 'TgStrNum', 'TgDecimal'}, 'CDecimal': {'TgDecimal', 'TgInt', 'TgBool', 'TgFloat', 'TgStrNum'}, 'CBlob': {'TgBytes'},
                 'CDate': {'TgDate', 'TgDatetime', 'TgStrNum', 'TgStrText'}, 'CTime': {'TgTime', 'TgStrNum', 'TgStrText'}, 'CTimedelta': {'TgTimedelta', 'TgStrNum', 'TgStrText'},
                 'CDatetime': {'TgDatetime', 'TgStrNum', 'TgStrText'}, 'CUuid': {'TgUuid', 'TgBytes', 'TgInt', 'TgBool', 'TgStrNum', 'TgStrText'}}
